@@ -182,8 +182,32 @@ class Run:
     def time_left(self, budget_s):
         return budget_s - (time.time() - self.t0)
 
+    def resolve_required(self):
+        """A required anchor names a PUBLIC function ("ixai/x.py:Class.method").  A refactoring may move its body elsewhere
+        (a base class, a helper module): the anchor counts as executed when the code object the public name resolves to ran."""
+        import importlib
+        for spec in self.required:
+            if spec in self.cov.funcs or ":" not in spec:
+                continue
+            fn, qual = spec.split(":", 1)
+            try:
+                obj = importlib.import_module(fn[:-3].replace("/", "."))
+                for part in qual.split("."):
+                    obj = getattr(obj, part)
+                seen = 0
+                while not hasattr(obj, "__code__") and seen < 6:
+                    obj = getattr(obj, "__func__", None) or getattr(obj, "__wrapped__", None) or getattr(obj, "fget", None)
+                    seen += 1
+                code = obj.__code__
+                cf = code.co_filename
+                if cf.startswith(REPO + os.sep) and (cf[len(REPO) + 1:] + ":" + code.co_qualname) in self.cov.funcs:
+                    self.cov.funcs.add(spec)
+            except Exception:
+                continue
+
     # ---- partials (sharding) ---------------------------------------------------------------
     def to_partial(self):
+        self.resolve_required()
         return {"evaluations": self.evaluations, "nontrivial": sorted(self.nontrivial),
                 "samples": self.samples, "counters": dict(self.counters),
                 "observed": {k: sorted(map(repr, v))[:200000] for k, v in self.observed.items()},
@@ -230,6 +254,8 @@ class Run:
         for v in self.violations:
             k = next((kf for kf in known if kf["mechanism"] == v["mechanism"]), None)
             (hits if k else new).append((v, k))
+        if "ixai" in sys.modules:
+            self.resolve_required()
         missing = [f for f in self.required if f not in self.cov.funcs]
         if self.cov.funcs or self.cov.lines:
             if missing:
